@@ -544,7 +544,7 @@ func TestC35Sequential(t *testing.T) {
 		t.Skip()
 	}
 
-	kit.SetChecks(1500, 12000)
+	kit.SetChecks(300, 2000)
 	rapid.Check(t, func(rt *rapid.T) { c := genC35Sequential(rt); run(rt, c) })
 }
 
@@ -559,7 +559,7 @@ const c35ConcRule = "each case runs in a child process of the -race test binary.
 	"resolvable; and the race detector reports nothing (a report is a violation whose signature names the two recorder entry points involved). " +
 	"While a listed known finding says Flush is not synchronised with InsertData, cases are steered by construction so that no flush can overlap another goroutine's " +
 	"recorder call (explicit flushes move to a single-threaded phase after the concurrent one, batch size stays at the default) and counted as excluded. " +
-	"Non-trivial: ≥ 2 entries inserted and at least one recorder call was observed (atomic in-call counter) to overlap another goroutine's recorder call."
+	"Non-trivial: ≥ 2 entries inserted and the recorder calls of different goroutines were observed to interleave (a goroutine's consecutive calls were separated by another goroutine's call in the global call order) or to overlap in time (atomic in-call counter)."
 
 // c35RaceSig builds the signature of a race report: the recorder entry point
 // on each of the two stacks (Flush if the stack passes through Flush — also
@@ -581,6 +581,20 @@ func c35RaceSig(r raceReport) string {
 		a, b = b, a
 	}
 	return "race:" + a + "|" + b
+}
+
+// c35ConsequenceSig: in a case where a flush can overlap another goroutine's
+// recorder call, every non-race failure is named by that input class (the
+// symptom — lost rows, duplicated rows, dangling locations, nested BEGIN,
+// SQLITE_BUSY … — depends on the schedule and is kept in the message).
+func c35ConsequenceSig(c c35Case, sig string) string {
+	if !c35HasConcurrentFlushPotential(c) {
+		return sig
+	}
+	if strings.HasPrefix(sig, "panic:") || strings.HasPrefix(sig, "fatal:") {
+		return "overlapping-flush:panic"
+	}
+	return "overlapping-flush:content"
 }
 
 type c35ChildResult struct {
@@ -681,7 +695,7 @@ func TestC35Concurrent(t *testing.T) {
 			s.Fail(f, c, c35RaceSig(r), "data race: %s\n%s", r.detail(), head(r.Raw, 3000))
 		}
 		for _, fl := range res.Rep.Fails {
-			s.Fail(f, c, fl.Sig, "%s", fl.Msg)
+			s.Fail(f, c, c35ConsequenceSig(c, fl.Sig), "[%s] %s", fl.Sig, fl.Msg)
 		}
 		if len(res.Races) > 0 || len(res.Rep.Fails) > 0 {
 			// all of them were listed known findings; the history is not judged further
@@ -696,10 +710,13 @@ func TestC35Concurrent(t *testing.T) {
 			cl = append(cl, "flush-possible-in-concurrent-phase")
 		}
 		if res.Rep.Overlap > 0 {
-			cl = append(cl, "calls-overlapped")
+			cl = append(cl, "calls-overlapped-in-time")
+		}
+		if res.Rep.Interleaved > 0 {
+			cl = append(cl, "calls-interleaved")
 		}
 		cl = append(cl, fmt.Sprintf("procs:%d", c.Procs))
-		s.Note(c, res.Rep.Inserted >= 2 && res.Rep.Overlap > 0, cl...)
+		s.Note(c, res.Rep.Inserted >= 2 && (res.Rep.Interleaved > 0 || res.Rep.Overlap > 0), cl...)
 	}
 
 	var c c35Case
@@ -716,7 +733,7 @@ func TestC35Concurrent(t *testing.T) {
 		t.Skip()
 	}
 
-	kit.SetChecks(120, 700)
+	kit.SetChecks(100, 500)
 	rapid.Check(t, func(rt *rapid.T) {
 		c := genC35Concurrent(rt)
 		if steer && c35HasConcurrentFlushPotential(c) {
@@ -769,7 +786,7 @@ func c35KnownCase2() c35Case {
 	return c
 }
 
-func c35Known(t *testing.T, sub, what string, c c35Case, attempts int) {
+func c35Known(t *testing.T, sub, what, want string, c c35Case, attempts int) {
 	s := kit.Begin(t, "C35", sub, "fixed case: "+what+fmt.Sprintf("; up to %d child runs; reports a listed finding only when it reproduced", attempts))
 	defer s.End()
 	if kit.ReplayMode() {
@@ -781,44 +798,45 @@ func c35Known(t *testing.T, sub, what string, c c35Case, attempts int) {
 	root := c35WorkRoot(t)
 	pool := newChildPool(root)
 	defer pool.Close()
+	// union over the attempts, until the signature this reproduction is about showed
+	seen := map[string]string{}
 	for attempt := 0; attempt < attempts; attempt++ {
 		res := c35RunChild(t, pool, root, c, true)
 		if res.Inconcl != "" {
 			continue
 		}
-		seen := map[string]string{}
 		for _, r := range res.Races {
 			sig := c35RaceSig(r)
 			if _, dup := seen[sig]; !dup {
-				seen[sig] = "data race " + r.detail()
+				seen[sig] = fmt.Sprintf("(attempt %d) data race %s", attempt+1, r.detail())
 			}
 		}
 		for _, fl := range res.Rep.Fails {
-			if _, dup := seen[fl.Sig]; !dup {
-				seen[fl.Sig] = firstLineOf(fl.Msg)
+			sig := c35ConsequenceSig(c, fl.Sig)
+			if _, dup := seen[sig]; !dup {
+				seen[sig] = fmt.Sprintf("(attempt %d) [%s] %s", attempt+1, fl.Sig, firstLineOf(fl.Msg))
 			}
 		}
-		if len(seen) == 0 {
-			continue
+		if _, ok := seen[want]; ok {
+			break
 		}
-		sigs := make([]string, 0, len(seen))
-		for sig := range seen {
-			sigs = append(sigs, sig)
-		}
-		sort.Strings(sigs)
-		for _, sig := range sigs {
-			s.KnownStillFails(t, c, sig, fmt.Sprintf("%s (attempt %d): %s", what, attempt+1, seen[sig]))
-		}
-		return
+	}
+	sigs := make([]string, 0, len(seen))
+	for sig := range seen {
+		sigs = append(sigs, sig)
+	}
+	sort.Strings(sigs)
+	for _, sig := range sigs {
+		s.KnownStillFails(t, c, sig, what+" "+seen[sig])
 	}
 }
 
 func TestC35Known_ThresholdFlushFromSeveralGoroutines(t *testing.T) {
-	c35Known(t, "known-threshold-flush", "4 goroutines x 150 InsertData into one table (location column), batch size 7, no explicit Flush", c35KnownCase(), 5)
+	c35Known(t, "known-threshold-flush", "4 goroutines x 150 InsertData into one table (location column), batch size 7, no explicit Flush", "overlapping-flush:panic", c35KnownCase(), 4)
 }
 
 func TestC35Known_FlushDropsConcurrentInsert(t *testing.T) {
-	c35Known(t, "known-flush-vs-insert", "1 goroutine x 600 InsertData, 1 goroutine x 600 Flush, default batch size", c35KnownCase2(), 5)
+	c35Known(t, "known-flush-vs-insert", "1 goroutine x 600 InsertData, 1 goroutine x 600 Flush, default batch size", "overlapping-flush:content", c35KnownCase2(), 6)
 }
 
 // ---- sub-check 3: classes the storage layer may be unable to carry ------------------------------
@@ -924,6 +942,6 @@ func TestC35Unrepresentable(t *testing.T) {
 		t.Skip()
 	}
 
-	kit.SetChecks(300, 1500)
+	kit.SetChecks(100, 400)
 	rapid.Check(t, func(rt *rapid.T) { sc := genC35Special(rt); run(rt, sc) })
 }
